@@ -1,9 +1,7 @@
 (* C10 — solver diagnostics are truthful (cg, cgls; lsqr and omp are covered by
    the harness / C14).  The model keeps the SQUARES of the cost entries.
-   NOT proved: cgls_functional_monotone (J(x_{k+1}) <= J(x_k)) — it is
-   evaluated exactly on the model iterates and on the implementation's
-   iterates of every generated run by the check (codes 9 / 14); lsqr
-   monotonicity and lsqr's cost = SciPy r1norm are harness comparisons. *)
+   lsqr monotonicity and lsqr's cost = SciPy r1norm are harness comparisons
+   (LSQR is not modelled). *)
 From Coq Require Import QArith Qcanon.
 From PV Require Import Dict Vec Dot Mat QcInst Check CG CGLS CGLSFacts CGLSMono.
 Import ListNotations.
@@ -41,12 +39,13 @@ Proof. exact cg_cost_truthful. Qed.
 Print Assumptions C10_cg_cost_truthful.
 
 Theorem C10_cgls_solve_diagnostics :
-  forall (F : FieldS) absf gtb n A fixed y x0 niter damp tol,
-  let st0 := cgls_setup F absf n A fixed y x0 damp in
-  let '(x, istop, iiter, r1, r2sq, cost2, log) := cgls_solve F absf gtb n A fixed y x0 niter damp tol in
+  forall (F : FieldS) absf gtb n A y x0 niter damp tol,
+  let st0 := cgls_setup F absf n A y x0 damp in
+  let '(x, istop, iiter, r1sq, r2sq, cost2, log) := cgls_solve F absf gtb n A y x0 niter damp tol in
   length cost2 = S iiter /\ (iiter <= niter)%nat /\
   x = cl_x F (cgls_iter F absf n A iiter st0) /\ cost2 = cl_cost2 F (cgls_iter F absf n A iiter st0) /\
-  r1 = cl_kold F (cgls_iter F absf n A iiter st0) /\ r2sq = nth iiter (cl_cost1_2 F (cgls_iter F absf n A iiter st0)) (r0 F) /\
+  r1sq = nth iiter (cl_cost2 F (cgls_iter F absf n A iiter st0)) (r0 F) /\
+  r2sq = nth iiter (cl_cost1_2 F (cgls_iter F absf n A iiter st0)) (r0 F) /\
   callbacks_of log = map (fun i => cl_x F (cgls_iter F absf n A i st0)) (seq 1 iiter) /\
   begins_of log = map (fun i => cl_x F (cgls_iter F absf n A i st0)) (seq 0 iiter) /\
   length (ends_of log) = iiter.
@@ -54,74 +53,54 @@ Proof. exact cgls_solve_diagnostics. Qed.
 Print Assumptions C10_cgls_solve_diagnostics.
 
 Theorem C10_cgls_run_exits :
-  forall (F : FieldS) absf gtb n A fixed y x0 damp niter tol,
-  let st := fst (cgls_run F absf gtb n A niter niter tol (cgls_setup F absf n A fixed y x0 damp) []) in
+  forall (F : FieldS) absf gtb n A y x0 damp niter tol,
+  let st := fst (cgls_run F absf gtb n A niter niter tol (cgls_setup F absf n A y x0 damp) []) in
   Nat.ltb (cl_iiter F st) niter && gtb (cl_kold F st) tol = false.
 Proof. exact cgls_run_exits. Qed.
 Print Assumptions C10_cgls_run_exits.
 
-(* cgls: entry j of cost, squared, is ||y - A x_j||^2 — ALL inputs (x0, damp, fixed or not) *)
+(* cgls: entry j of cost, squared, is ||y - A x_j||^2 — ALL inputs *)
 Theorem C10_cgls_cost_truthful :
-  forall (F : FieldS) (absf : F -> F) n (A : list (list F)) (fixed : bool), wfM F n A ->
+  forall (F : FieldS) (absf : F -> F) n (A : list (list F)), wfM F n A ->
   forall y, length y = length A -> forall damp x0 k, x0_ok F n x0 ->
-    let st0 := cgls_setup F absf n A fixed y x0 damp in
+    let st0 := cgls_setup F absf n A y x0 damp in
     cl_cost2 F (cgls_iter F absf n A k st0) = map (fun j => lsres2 F A y (cl_x F (cgls_iter F absf n A j st0))) (seq 0 (S k)).
 Proof. exact cgls_cost_truthful. Qed.
 Print Assumptions C10_cgls_cost_truthful.
 
-(* cgls: r2norm^2 = ||y - A x||^2 + damp^2 ||x||^2 of the returned iterate when at least one iteration was
-   performed, or when the setup guard holds (no x0 / damp * ||x0||^2 = damp^2 * ||x0||^2 / repaired setup) *)
-Theorem C10_cgls_r2norm_truthful_partial :
-  forall (F : FieldS) (absf : F -> F) n (A : list (list F)) (fixed : bool), wfM F n A ->
+(* cgls: r1norm^2 = ||y - A x||^2 of the returned iterate — ALL inputs, all k (including 0 iterations) *)
+Theorem C10_cgls_r1norm_truthful :
+  forall (F : FieldS) (absf : F -> F) n (A : list (list F)), wfM F n A ->
+  forall y, length y = length A -> forall damp x0 k, x0_ok F n x0 ->
+    let st := cgls_iter F absf n A k (cgls_setup F absf n A y x0 damp) in
+    cgls_r1norm2 F st = lsres2 F A y (cl_x F st).
+Proof. exact cgls_r1norm_truthful. Qed.
+Print Assumptions C10_cgls_r1norm_truthful.
+
+(* cgls: r2norm^2 = ||y - A x||^2 + damp^2 ||x||^2 of the returned iterate — ALL inputs, all k *)
+Theorem C10_cgls_r2norm_truthful :
+  forall (F : FieldS) (absf : F -> F) n (A : list (list F)), wfM F n A ->
   forall y, length y = length A -> forall damp, (forall v : list F, absf (dot F v v) = dot F v v) ->
-  forall x0 k, x0_ok F n x0 -> cost1_guard F fixed damp x0 \/ (1 <= k)%nat ->
-    let st := cgls_iter F absf n A k (cgls_setup F absf n A fixed y x0 damp) in
+  forall x0 k, x0_ok F n x0 ->
+    let st := cgls_iter F absf n A k (cgls_setup F absf n A y x0 damp) in
     cgls_r2norm2 F st = lsfun F A y damp (cl_x F st).
 Proof. exact cgls_r2norm_truthful. Qed.
-Print Assumptions C10_cgls_r2norm_truthful_partial.
+Print Assumptions C10_cgls_r2norm_truthful.
 
-Theorem C10_cgls_cost1_setup_refuted :
-  exists (A : list (list QcF)) (y x0 : list QcF) (damp : QcF),
-    wfM QcF 1 A /\ length y = length A /\ length x0 = 1%nat /\
-    let st := cgls_setup QcF absR 1 A false y (Some x0) damp in
-    cgls_r2norm2 QcF st <> lsfun QcF A y damp (cl_x QcF st).
-Proof. exact cgls_cost1_setup_refuted. Qed.
-Print Assumptions C10_cgls_cost1_setup_refuted.
-
-(* cgls: the returned r1norm (= kold, the squared norm of the normal-equation residual) is not ||y - A x|| *)
-Theorem C10_cgls_r1norm_refuted :
-  exists (A : list (list QcF)) (y : list QcF),
-    wfM QcF 1 A /\ length y = length A /\
-    let '(x, _, iiter, r1, _, _, _) := cgls_solve QcF absR gtR 1 A false y None 5 0%Qc 0%Qc in
-    iiter = 1%nat /\ (r1 * r1)%Qc <> lsres2 QcF A y x.
-Proof. exact cgls_r1norm_refuted. Qed.
-Print Assumptions C10_cgls_r1norm_refuted.
-
-(* cgls: ONE step does not increase J(x) = ||y - A x||^2 + damp^2 ||x||^2 (ordered field): J(x_k) - J(x_{k+1}) = a_k^2 delta_k >= 0.
-   PARTIAL: one step from a state satisfying the invariants and <c, r> = kold (exact previous line search), delta <> 0;
-   the induction carrying <c_k, r_k> = kold_k along the whole run (and the degenerate case delta = 0) is not done. *)
-Theorem C10_cgls_step_descent_partial :
+(* cgls: the functional J(x) = ||y - A x||^2 + damp^2 ||x||^2 never increases from one iteration to the next:
+   ALL systems, x0, damp, k (ordered field; by induction carrying <c_k, r_k> = kold_k = <r_k, r_k>;
+   J(x_k) - J(x_{k+1}) = a_k^2 delta_k >= 0, and x does not move in the degenerate case delta_k = 0) *)
+Theorem C10_cgls_functional_monotone :
   forall (O : OrdField) (absf : O -> O) n (A : list (list O)), wfM O n A ->
-  forall y, length y = length A -> forall damp (st : clst O),
-  cl_inv O n A y damp st -> cl_rinv O n A damp st ->
-  dot O (cl_c O st) (cl_r O st) = cl_kold O st ->
-  radd O (dot O (cl_q O st) (cl_q O st)) (rmul O (rmul O damp damp) (dot O (cl_c O st) (cl_c O st))) <> r0 O ->
-  let delta := radd O (dot O (cl_q O st) (cl_q O st)) (rmul O (rmul O damp damp) (dot O (cl_c O st) (cl_c O st))) in
-  let a := rdiv O (cl_kold O st) delta in
-  radd O (lsfun O A y damp (cl_x O (cgls_step O absf n A st))) (rmul O (rmul O a a) delta) = lsfun O A y damp (cl_x O st)
-  /\ rle O (lsfun O A y damp (cl_x O (cgls_step O absf n A st))) (lsfun O A y damp (cl_x O st)).
-Proof. exact cgls_step_descent. Qed.
-Print Assumptions C10_cgls_step_descent_partial.
+  forall y, length y = length A -> forall damp, (forall v : list O, absf (dot O v v) = dot O v v) ->
+  forall x0 k, x0_ok O n x0 ->
+    rle O (lsfun O A y damp (cl_x O (cgls_iter O absf n A (S k) (cgls_setup O absf n A y x0 damp))))
+          (lsfun O A y damp (cl_x O (cgls_iter O absf n A k (cgls_setup O absf n A y x0 damp)))).
+Proof. exact cgls_functional_monotone. Qed.
+Print Assumptions C10_cgls_functional_monotone.
 
 Example C10_hypotheses_satisfiable :
   wfM QcF 2 eA /\ length ey = length eA /\ (forall v : list QcF, absR (dot QcF v v) = dot QcF v v) /\
   x0_ok QcF 2 (Some [qz 1; qz (-1)]) /\ linop QcF 2 2 (normal_op QcF 2 eA ed).
 Proof. exact example_hyps10. Qed.
 Print Assumptions C10_hypotheses_satisfiable.
-
-Example C10_descent_hypotheses_satisfiable :
-  let st := cgls_setup QcF absR 2 eA true ey (Some [qz 1; qz (-1)]) ed in
-  dot QcF (cl_c QcF st) (cl_r QcF st) = cl_kold QcF st /\
-  (dot QcF (cl_q QcF st) (cl_q QcF st) + ed * ed * dot QcF (cl_c QcF st) (cl_c QcF st))%Qc <> 0%Qc.
-Proof. exact example_descent_hyps. Qed.
-Print Assumptions C10_descent_hypotheses_satisfiable.
